@@ -564,7 +564,7 @@ func init() {
 	register(&Property{
 		ID:    "C14",
 		Level: "other",
-		Rules: []Rule{{"Y1", ruleLayoutItemHeader}, {"Y2", ruleLayoutLoc}, {"Y3", ruleLayoutNode}, {"Y4", ruleLayoutRoot}, {"Y5", ruleLayoutConsts}, {"Y6", ruleLayoutItemRecord}, {"O4", ruleO4}, {"O5", ruleO5}, {"O6", ruleO6}},
+		Rules: []Rule{{"Y1", ruleLayoutItemHeader}, {"Y2", ruleLayoutLoc}, {"Y3", ruleLayoutNode}, {"Y4", ruleLayoutRoot}, {"Y5", ruleLayoutConsts}, {"Y6", ruleLayoutItemRecord}, {"O4", ruleO4}, {"O5", ruleO5}, {"O6", ruleO6}, {"O2b", ruleO2b}},
 		Explanation: "An abstract evaluator over {integer constants, symbolic lengths} replays the straight-line encoders and decoders of /repo's current source (inlining the location helpers, folding constant branches, forking on the others and requiring identical layouts) and extracts an ordered table of (byte order, width, offset, field) events; the tables of both directions are compared with an independent version-4 table written in the checker: item header u32 total|u32 keyLen|u32 valLen|i32 priority (16 bytes) followed by key and value with total = 16+keyLen+valLen written and checked; location i64 offset|u32 length (12 bytes, nil encoded as zeros, JSON form {o,l}); node record item,left,right locations + u64 numNodes|u64 numBytes (52 bytes, length checked on read); root record MagicBeg x2|u32 Version|u32 length|JSON|i64 offset|u32 length|MagicEnd x2 with the reader's trailer (24 bytes) and body offsets; Version == 4, the two magic strings assigned only by their initialisers, every encoding/binary use big-endian, keyPSize == 4; plus children-before-parent (O4). Decides conformance of the byte layout for all inputs; NOT that an independent decoder recovers the flushed state (that also needs C02's protocol and C13's invariants).",
 		ControlSrc: controlC14,
 		Expect:     []Expect{{"Y5", "zzCtlLE"}},
